@@ -77,7 +77,8 @@ pub fn programs(family: &str, _tier: Tier) -> Vec<Prog> {
         "map2" => vec![Fam::Map2],
         "bind" => vec![Fam::BindExisting, Fam::BindFresh],
         "ignore" => vec![Fam::IgnoreConst, Fam::IgnoreOuter],
-        "shared" => vec![Fam::SharedOuter, Fam::SharedConst],
+        "shared" => vec![Fam::SharedOuter, Fam::SharedConst, Fam::SharedHalfPinned],
+        "shared-pinned" => vec![Fam::SharedHalfPinned],
         "all" => Fam::ALL.to_vec(),
         _ => return vec![],
     };
